@@ -91,7 +91,9 @@ CreateIsEarliest ==
 (* (C02) - so terminality is claimed for PUBLISHED deactivates.  (TLC      *)
 (* found the counterexample: unpublished D, then a published R for the     *)
 (* same commitment.)                                                       *)
-DeactByPublished(S) == LET st == ResolveRef(S) IN st.deact /\ st.log[Len(st.log)].pub
+(* (second counterexample, thorough alphabet: unpublished C and R(1->2), published D by key 2, then a published      *)
+(* R(1->3): the published deactivate rested on an unpublished recover.)  So: every applied operation is anchored.    *)
+DeactByPublished(S) == LET st == ResolveRef(S) IN st.deact /\ \A i \in DOMAIN st.log : st.log[i].pub
 DeactivationTerminal ==
   [][DeactByPublished(store) => (res'.deact /\ res'.doc = <<>> /\ res'.uc = NoC /\ res'.rc = NoC)]_vars
 
